@@ -89,13 +89,15 @@ func (ln *listener) Accept() (net.Conn, error) {
 
 // Close implements Listener.
 func (ln *listener) Close() error {
-	if ln.fd != 0 {
-		verifFD(-vfdListener, ln, ln.fd)
-		syscall.Close(ln.fd)
-	}
 	if ln.file != nil {
+		// ln.fd is the descriptor of ln.file: it is closed through its owner only, and only once
 		verifFD(-vfdListenerFile, ln, ln.fd)
 		ln.file.Close()
+		ln.file, ln.fd = nil, 0
+	} else if ln.fd != 0 {
+		verifFD(-vfdListener, ln, ln.fd)
+		syscall.Close(ln.fd)
+		ln.fd = 0
 	}
 	if ln.ln != nil {
 		ln.ln.Close()
